@@ -63,7 +63,7 @@ fn strategy(_t: Tier) -> BoxedStrategy<Case> {
         4 => (plain_name(), vec(pathspec(5), 1..4), any::<u64>())
             .prop_map(|(name, paths, seed)| Case { multi: true, name, paths, seed }),
         // multi-file with a hostile name
-        2 => (pathspec(3), vec(pathspec(3), 1..4), any::<u64>())
+        2 => (pathspec(3), vec(pathspec(3), 0..4), any::<u64>())
             .prop_map(|(name, paths, seed)| Case { multi: true, name, paths, seed }),
     ]
     .boxed()
@@ -164,10 +164,11 @@ pub fn check(case: &Case) -> Outcome {
         vec![(name.clone(), 5)]
     };
     let mut files = files;
-    if files.iter().map(|f| f.1).sum::<usize>() == 0 {
+    if !files.is_empty() && files.iter().map(|f| f.1).sum::<usize>() == 0 {
         // at least one piece must exist
         files[0].1 = 4;
     }
+    o.class_if(case.multi && files.is_empty(), "multi-file-without-entries");
     o.class_if(case.multi && files.iter().map(|f| f.1).sum::<usize>() % 4 == 0 && files.last().map(|f| f.1 == 0).unwrap_or(false), "empty-file-at-the-very-end-of-the-content");
     let geo = Geometry { piece_len: 4, files, multi: case.multi, name: name.clone(), content_seed: case.seed };
     let t = Torrent::new(geo.clone());
